@@ -125,6 +125,8 @@ def _run(mod, ch):
     out_save, err_save = sys.stdout, sys.stderr
     sys.stdout = io.StringIO()
     sys.stderr = io.StringIO()      # progress bars and worker chatter; tracebacks of simulated workers are captured by the simulator
+    from . import kernel as _kernel
+    wt0 = _kernel.WALL_TIMEOUTS[0]
     try:
         try:
             res = mod.run_one(ch, env)
@@ -140,6 +142,9 @@ def _run(mod, ch):
             _common.PROGRESS.clear()
         except Exception:
             pass
+    if _kernel.WALL_TIMEOUTS[0] != wt0:
+        # the run hit the real-time limit: whatever it reports says something about the load of this machine only
+        res = {"wall_timeout": True, "config": res.get("config"), "leaked": 0}
     res["choices"] = list(ch.rec)
     if ch.kinds is not None:
         res["kinds"] = list(ch.kinds)
@@ -158,13 +163,16 @@ def _batch(args):
     out = {
         "n": 0, "digests": set(), "steps": 0, "vtime": 0.0, "probes": {}, "faults": {},
         "violations": [], "harness_errors": [], "samples": [], "nontrivial": 0,
-        "selftest_pairs": 0, "selftest_digests": {}, "selftest_mismatch": [], "leaked": 0, "extra": {},
+        "selftest_pairs": 0, "selftest_digests": {}, "selftest_mismatch": [], "leaked": 0, "extra": {}, "wall_timeouts": [],
     }
     for i in indices:
         if deadline is not None and time.time() > deadline:
             break
         res = run_seeded(mod, seed, i)
         out["n"] += 1
+        if res.get("wall_timeout"):
+            out["wall_timeouts"].append({"run_index": i, "choices": res["choices"]})
+            continue
         if "harness_error" in res:
             out["harness_errors"].append({"run_index": i, "error": res["harness_error"], "choices": res["choices"]})
             continue
@@ -211,7 +219,7 @@ def fresh_digests(prop, seed, indices, hashseed="12345"):
     env["PYTHONPATH"] = VERIF + os.pathsep + env.get("PYTHONPATH", "")
     cmd = [sys.executable, "-m", "toastysim.cli", prop, "--isolate", "--digests", ",".join(str(i) for i in indices)]
     env["VERIF_SEED"] = str(seed)
-    p = subprocess.run(cmd, env=env, capture_output=True, text=True, timeout=600, cwd=VERIF)
+    p = subprocess.run(cmd, env=env, capture_output=True, text=True, timeout=2400, cwd=VERIF)
     if p.returncode != 0:
         raise RuntimeError("fresh-interpreter digest run failed: %s\n%s" % (p.returncode, p.stderr[-2000:]))
     out = {}
@@ -232,7 +240,7 @@ def xproc_of_replay(prop, path, hashseed):
     env["PYTHONHASHSEED"] = hashseed
     env["PYTHONPATH"] = VERIF + os.pathsep + env.get("PYTHONPATH", "")
     p = subprocess.run([sys.executable, "-m", "toastysim.cli", prop, "--xproc-replay", path],
-                       env=env, capture_output=True, text=True, timeout=900, cwd=VERIF)
+                       env=env, capture_output=True, text=True, timeout=2400, cwd=VERIF)
     for line in p.stdout.splitlines():
         if line.startswith("XPROC 0 "):
             return line[len("XPROC 0 "):]
@@ -408,7 +416,7 @@ def _fresh_replay(prop, path, hashseed):
     env["PYTHONHASHSEED"] = hashseed
     env["PYTHONPATH"] = VERIF + os.pathsep + env.get("PYTHONPATH", "")
     p = subprocess.run([sys.executable, "-m", "toastysim.cli", prop, "--replay", path],
-                       env=env, capture_output=True, text=True, timeout=900, cwd=VERIF)
+                       env=env, capture_output=True, text=True, timeout=2400, cwd=VERIF)
     sig = dig = None
     for line in p.stdout.splitlines():
         if line.startswith("replayed: "):
@@ -458,8 +466,8 @@ def check(prop, tier="quick", seed=0, runs=None, jobs=None, max_s=None, out=sys.
 
     agg = {"n": 0, "digests": set(), "steps": 0, "vtime": 0.0, "probes": {}, "faults": {}, "violations": [],
            "harness_errors": [], "samples": [], "nontrivial": 0, "selftest_pairs": 0, "selftest_digests": {},
-           "selftest_mismatch": [], "leaked": 0, "extra": {}}
-    hard_timeout = max_s + 300
+           "selftest_mismatch": [], "leaked": 0, "extra": {}, "wall_timeouts": []}
+    hard_timeout = max_s + 1200
     with _pool(jobs) as ex:
         futs = [ex.submit(_batch, t) for t in tasks]
         try:
@@ -478,6 +486,7 @@ def check(prop, tier="quick", seed=0, runs=None, jobs=None, max_s=None, out=sys.
                     for kk, v in r[k].items():
                         agg[k][kk] = agg[k].get(kk, 0) + v
                 agg["violations"].extend(r["violations"])
+                agg["wall_timeouts"].extend(r.get("wall_timeouts", []))
                 agg["harness_errors"].extend(r["harness_errors"])
                 if len(agg["samples"]) < 3:
                     agg["samples"].extend(r["samples"][:3 - len(agg["samples"])])
@@ -522,8 +531,26 @@ def check(prop, tier="quick", seed=0, runs=None, jobs=None, max_s=None, out=sys.
         except Exception as e:
             agg["harness_errors"].append({"run_index": -1, "error": "fresh-interpreter self-test failed: %s" % e})
 
-    # violations -> minimise, replay file, known findings
+    # runs that hit the real-time limit inside a loaded batch are executed again, alone, with a generous limit
     setup_process()
+    wall_rerun_ok = 0
+    for w in agg["wall_timeouts"][:6]:
+        os.environ["TOASTYSIM_WALL_TIMEOUT"] = "1800"
+        try:
+            r = run_replay(mod, w["choices"])
+        finally:
+            os.environ.pop("TOASTYSIM_WALL_TIMEOUT", None)
+        if r.get("wall_timeout"):
+            agg["harness_errors"].append({"run_index": w["run_index"], "error": "the run does not finish within 1800 real seconds even when executed alone", "choices": w["choices"]})
+        elif "harness_error" in r:
+            agg["harness_errors"].append({"run_index": w["run_index"], "error": r["harness_error"], "choices": w["choices"]})
+        else:
+            wall_rerun_ok += 1
+            if r["violation"] is not None:
+                agg["violations"].append({"run_index": w["run_index"], "violation": r["violation"], "choices": r["choices"],
+                                          "digest": r["digest"], "config": r.get("config")})
+
+    # violations -> minimise, replay file, known findings
     known = load_known(prop)
     by_sig = {}
     for v in sorted(agg["violations"], key=lambda v: (len(v["choices"]), v["run_index"])):
@@ -631,6 +658,7 @@ def check(prop, tier="quick", seed=0, runs=None, jobs=None, max_s=None, out=sys.
                                           "runs_depending_on_earlier_runs_in_the_same_process": history_dependent},
             "known_findings_reproduced": sorted(known_hit),
             "harness_errors": len(agg["harness_errors"]),
+            "runs_over_the_real_time_limit_in_the_batch": {"seen": len(agg["wall_timeouts"]), "executed_again_alone_and_judged": wall_rerun_ok},
             "exhaustive": False,
         },
         "assumptions": mod.ASSUMPTIONS,
